@@ -360,11 +360,25 @@ func paramNames(decl *ast.FuncDecl, info *types.Info) (names []string, objs []ty
 }
 
 func (e *Engine) inline(caller *frame, st *State, fn *types.Func, decl *ast.FuncDecl, args []Val, k func(st *State, rets []Val)) {
+	if e.Sweep && caller.onStack(fn) {
+		// sweep mode, recursive call: results are unknown; a callee that may write makes the state dirty
+		if e.mayWrite(fn, 0) {
+			st.store = e.sym("st", "Store")
+			st.dirty = true
+		}
+		sig := fn.Type().(*types.Signature)
+		rets := make([]Val, sig.Results().Len())
+		for i := range rets {
+			rets[i] = e.freshOf(e.typeOf(sig.Results().At(i).Type()), "rec")
+		}
+		k(st, rets)
+		return
+	}
 	if caller.depth > 12 {
 		panic("inlining depth exceeded at " + fn.FullName())
 	}
 	pkg := e.fpkg[fn]
-	nf := &frame{fn: fn, pkg: pkg, info: pkg.TypesInfo, exits: caller.exits, depth: caller.depth + 1, ver: caller.ver}
+	nf := &frame{fn: fn, pkg: pkg, info: pkg.TypesInfo, exits: caller.exits, depth: caller.depth + 1, ver: caller.ver, parent: caller}
 	saved := st.vars
 	st.vars = map[types.Object]Val{}
 	_, objs := paramNames(decl, nf.info)
@@ -564,12 +578,27 @@ func (e *Engine) switchStmt(fr *frame, st *State, s *ast.SwitchStmt, k func(st *
 func (e *Engine) rangeLoop(fr *frame, st *State, label string, s *ast.RangeStmt, k func(st *State)) {
 	info := fr.info
 	e.eval(fr, st, s.X, func(st *State, xs Val) {
+		mapRange := false
 		if xs.Ty.K == spec.KMap {
-			panic("range over a Go map (iteration order is unspecified): outside the subset")
+			if !e.Sweep {
+				panic("range over a Go map (iteration order is unspecified): outside the subset")
+			}
+			// sweep mode: an unknown number of iterations over unknown keys and values (over-approximation)
+			n := e.sym("maplen", "Int")
+			st.facts = append(st.facts, sx.App(">=", n, sx.Int(0)))
+			xs = mk(n, spec.KInt)
+			xs.Pair = nil
+			mapRange = true
 		}
 
 		idxObj := types.Object(types.NewVar(token.NoPos, nil, "$i", types.Typ[types.Int]))
-		if id, ok := s.Key.(*ast.Ident); ok && id.Name != "_" {
+		var mapKeyObj types.Object
+		if id, ok := s.Key.(*ast.Ident); ok && id.Name != "_" && mapRange {
+			mapKeyObj = info.Defs[id]
+			if mapKeyObj == nil {
+				mapKeyObj = info.Uses[id]
+			}
+		} else if id, ok := s.Key.(*ast.Ident); ok && id.Name != "_" {
 			if o := info.Defs[id]; o != nil {
 				idxObj = o
 			} else {
@@ -586,13 +615,18 @@ func (e *Engine) rangeLoop(fr *frame, st *State, label string, s *ast.RangeStmt,
 		e.loopCore(fr, st, label, s, map[types.Object]bool{idxObj: true}, func(st *State, kk cont) {
 			kk(st, mk(sx.App("<", st.vars[idxObj].T, n), spec.KBool))
 		}, func(st *State, kk func(st *State)) {
+			if mapKeyObj != nil {
+				st.vars[mapKeyObj] = e.freshOf(e.typeOf(mapKeyObj.Type()), "mapkey")
+			}
 			if id, ok := s.Value.(*ast.Ident); ok && id.Name != "_" {
 				o := info.Defs[id]
 				if o == nil {
 					o = info.Uses[id]
 				}
 				i := st.vars[idxObj].T
-				if xs.Ty.K == spec.KNB {
+				if mapRange {
+					st.vars[o] = e.freshOf(e.typeOf(o.Type()), "mapval")
+				} else if xs.Ty.K == spec.KNB {
 					st.vars[o] = mk(sx.App("str.to_code", sx.App("str.at", xs.bytes(), i)), spec.KInt)
 				} else {
 					st.vars[o] = Val{TV: spec.TV{T: sx.App("select", arrOf(xs), i), Ty: e.Lists[xs.Ty.Name]}}
